@@ -49,7 +49,7 @@ logfloat = st.floats(-30, 30).map(lambda e: float(f"{10.0 ** e:.15e}"))
 
 PART_NAMES_D = ["position_x", "position_y", "position_z", "velocity_x", "velocity_y", "velocity_z", "mass",
                 "birth_time", "metallicity", "extra_d1"]
-PART_NAMES_I = ["identity", "levelp", "extra_i1"]
+PART_NAMES_I = ["identity", "levelp", "extra_i1", "level"]       # ("level": a name the mesh group uses too)
 PART_NAMES_B = ["family", "tag", "extra_b1"]
 
 
